@@ -15,6 +15,8 @@ SRC=/tmp/seed/$ID/_seed/$VAR
 WT=/tmp/evalwt-$ID-$VAR
 OUT=/verif/seeded/$ID-$VAR
 export GOFLAGS=-mod=mod GOPROXY=off GOSUMDB=off GOTOOLCHAIN=local
+# the suite writes fixed file names under the temp dir (/tmp/server.conf.pb): keep runs apart
+export TMPDIR=/tmp/evaltmp-$ID-$VAR; mkdir -p "$TMPDIR"
 mkdir -p "$OUT"
 cp "$SRC/patch.diff" "$OUT/patch.diff"
 cp "$SRC/demo_test.go" "$OUT/demo_test.go"
@@ -43,6 +45,17 @@ if [ $APPLY = 0 ]; then
   res "demo with patch: rc=$DEMO_MUT (want non-zero)"
   rm -f "$DEMO"
   go test -mod=mod -vet=off -count=1 -timeout 25m ./... > "$OUT/suite_mut.log" 2>&1; SUITE=$?
+  # timing-sensitive tests of the suite (e.g. replay.TestExpireInterval) flake on
+  # a loaded machine: a failing package is re-run alone, up to twice
+  for TRY in 1 2; do
+    [ $SUITE = 0 ] && break
+    FAILED=$(grep -E '^FAIL[[:space:]]+github.com' "$OUT/suite_mut.log" | awk '{print $2}' | sed 's#github.com/enfein/mieru/v3#.#')
+    [ -z "$FAILED" ] && break
+    go test -mod=mod -vet=off -count=1 -timeout 25m $FAILED > "$OUT/suite_mut.retry$TRY.log" 2>&1; SUITE=$?
+    res "re-run of failing package(s) $FAILED alone: rc=$SUITE"
+    cp "$OUT/suite_mut.retry$TRY.log" "$OUT/suite_mut.log.last"
+    [ $SUITE != 0 ] && cp "$OUT/suite_mut.retry$TRY.log" "$OUT/suite_mut.log"
+  done
   res "existing suite with patch: rc=$SUITE (want 0)"
 fi
 rm -f "$DEMO"
@@ -72,4 +85,5 @@ json.dump(meta, open(os.path.join(out, "meta.json"), "w"), indent=1)
 EOF
 cd /
 git -C /repo worktree remove --force "$WT"
+rm -rf "$TMPDIR"
 rm -rf /verif/replays
